@@ -696,25 +696,24 @@ pub fn plan(rng: &mut Rng, scale: u64, thorough: bool, repo: &str, hist: &mut Hi
             specs.push(format!("{}:{}", kind, seed));
         }
     }
-    // property blocks / attributes / redefinitions: the whole sweep (every variant once; in quick the variants that are about
-    // a repeat, a duplicate or a redefinition always, the value / host sweeps one third per run, chosen by the seed) + random blocks
+    // property blocks / attributes / redefinitions (c08_props.rs): the whole sweep, every variant once per check, + random
+    // blocks.  Their random choices come from a generator of their own (a copy of the current state, nothing is consumed), and
+    // their requests are appended after the others: the requests of the older streams are the same as before for a given seed
+    let mut prng = Rng(rng.0 ^ 0x7072_6f70_7331);
+    let mut props_specs: Vec<String> = Vec::new();
     for c in props_categories() {
         hist.0.entry(format!("cat/props/{}", c)).or_insert(0);
     }
-    let third = rng.below(3) as usize;
     for (k, (c, _)) in props_variants().iter().enumerate() {
-        let core = c.contains("repeated") || c.contains("duplicate") || c.contains("redefinition-pair") || c.contains("unknown");
-        if thorough || core || k % 3 == third {
-            hist.add(&format!("cat/props/{}", c));
-            specs.push(format!("propone:{}", k));
-        }
+        hist.add(&format!("cat/props/{}", c));
+        props_specs.push(format!("propone:{}", k));
     }
     for _ in 0..per(150) {
-        let seed = rng.next() >> 20;
+        let seed = prng.next() >> 20;
         for c in &gen_props(&mut Rng::new(seed)).cats {
             hist.add(&format!("cat/props/{}", c));
         }
-        specs.push(format!("props:{}", seed));
+        props_specs.push(format!("props:{}", seed));
     }
     // typed constant expressions in every constant context (typer/src/evaluator.rs)
     for _ in 0..per(200) {
@@ -749,7 +748,11 @@ pub fn plan(rng: &mut Rng, scale: u64, thorough: bool, repo: &str, hist: &mut Hi
         }
     }
     let mut reqs = Vec::new();
-    for spec in specs {
+    let n_old = specs.len();
+    specs.extend(props_specs);
+    for (si, spec) in specs.into_iter().enumerate() {
+        // the appended property streams draw from their own generator
+        let rng: &mut Rng = if si < n_old { &mut *rng } else { &mut prng };
         let names = super::materialise(&spec).map(|m| pipeline_names(&m.bytes)).unwrap_or_default();
         let heavy = spec.starts_with("repo:") || spec.starts_with("rmut:");
         // the preprocessor does not depend on the target beyond RSSL_TARGET_*: one HLSL flavour + Metal in quick
